@@ -70,7 +70,7 @@ FAULTS = {
                                                            ("v2_zz9/regs.s", 1, {"v1_zz9/regs.s": "; registers\nsta.w reg_zz9\nrts\n", "v2_zz9/regs.s": "; registers\nsta.w reg_zz9\nrts\n"})),
     "unterminated_string_escaped_quote": ("scan", ".ascii 'Don\\'t panic\n.ascii 'Bye'\nrts ; that's all", "'Don", 0),
 }
-LOC_RE = re.compile(r"(?P<file>[\w./-]+):(?P<line>-?\d+)(?::(?P<col>-?\d+))?")
+LOC_RE = re.compile(r"(?P<file>(?:[A-Za-z]:|nightly-03:15|a:b:)?[\w./-]+):(?P<line>-?\d+)(?::(?P<col>-?\d+))?")
 
 
 def plan(tier: str, seed: int) -> list[dict]:
@@ -133,7 +133,23 @@ def check_case(res: Res, p: dict, name: str, where: tuple[list, int], lay_seed: 
         main = shift(main)
         files = {k: (shift(v) if isinstance(v, str) else v) for k, v in files.items()}
         res.count("uniformly_indented_sources")
-    file_text = main if fname == "t.s" else files[fname].rstrip("\n")
+    main_name = "t.s"
+    if lrng.random() < 0.15 and fname != "t.s" and kind != "scan_eof" and f"'{fname}'" in (main + "".join(v for v in files.values() if isinstance(v, str))):
+        # the failing file is included under a name written with ./ or through another directory and ..: the report names it as it is written
+        how = lrng.choice(["./", "sub_q/../", "./sub_q/.././"])
+        new_name = how + fname
+        main = main.replace(f"'{fname}'", f"'{new_name}'")
+        files = {k: (v.replace(f"'{fname}'", f"'{new_name}'") if isinstance(v, str) else v) for k, v in files.items()}
+        files["sub_q/keep.txt"] = "x\n"
+        files[new_name] = files.pop(fname)
+        fname = new_name
+        res.count("include_names_with_dot_components")
+    elif lrng.random() < 0.1 and fname == "t.s" and kind != "scan_eof":
+        # the source is assembled under a name that holds a colon (a drive letter, a time-stamped directory): a name like any other
+        main_name = lrng.choice(["C:/hack/patch.s", "nightly-03:15/patch.s", "a:b:c.s"])
+        fname = main_name
+        res.count("main_file_names_with_a_colon")
+    file_text = main if fname == main_name else files[fname].rstrip("\n")
     flines = file_text.split("\n")
     if line >= len(flines) or (elsewhere is None and text.split("\n")[loff] not in flines[line]):
         res.count("harness_bookkeeping_skipped")      # the insertion point could not be located in the rendered file: not a case
@@ -143,20 +159,20 @@ def check_case(res: Res, p: dict, name: str, where: tuple[list, int], lay_seed: 
         flines = flines[:line + 1]
         flines[line] = flines[line].rstrip(" ")
         file_text = "\n".join(flines)
-        if fname == "t.s":
+        if fname == main_name:
             main = file_text
         else:
             files[fname] = file_text
             # the including statement must still be reachable: keep the main file as rendered
     else:
-        if fname == "t.s":
+        if fname == main_name:
             main = main + "\n"
         # included files already end with a newline
     want_text = flines[line]
-    src = main if kind == "scan_eof" and fname == "t.s" else (main if main.endswith("\n") else main + "\n")
+    src = main if kind == "scan_eof" and fname == main_name else (main if main.endswith("\n") else main + "\n")
     for k, v in (p.get("files") or {}).items():
         files[k] = v
-    r = assemble(src, files=files or None, rom=p.get("rom"))
+    r = assemble(src, files=files or None, rom=p.get("rom"), filename=main_name)
     res.case((src, tuple(sorted((k, str(v)[:50]) for k, v in files.items())), name), True)
     res.count(f"fault[{name}]")
     res.count("in_included_file" if fname != "t.s" else "in_main_file")
@@ -203,7 +219,7 @@ def check_case(res: Res, p: dict, name: str, where: tuple[list, int], lay_seed: 
         quoted = [ln for ln in etext.split("\n")[1:3]]
         res.violate("wrong-location", f"{name}: location {fname}:{line} is right but the quoted text is {quoted!r}, the line reads {want_text!r}", wit)
         return
-    if lay_seed % 7 == 0 and kind != "scan_eof" and span == 1:
+    if lay_seed % 7 == 0 and kind != "scan_eof" and span == 1 and main_name == "t.s":
         # the same faulty source as the second text assembled by one Program object (a multi-file build that shares its symbols): the
         # location is counted in the text that fails, not in what the object has seen before
         from vf.harness import Scratch, new_program, run_program
@@ -230,7 +246,7 @@ def check_case(res: Res, p: dict, name: str, where: tuple[list, int], lay_seed: 
         if not locs2 and (etext2.startswith("<unprintable") or r2.err_kind not in ("NodeError", "returned", "ScannerException", "ParserSyntaxError")):
             res.violate("no-location", f"{name} as the second text assembled by one Program: the error carries no location ({r2.err_kind}: {etext2[:120]!r})", dict(wit, second_text=True, warm=warm))
             return
-    if lay_seed % 5 == 0 and kind != "scan_eof" and span == 1:
+    if lay_seed % 5 == 0 and kind != "scan_eof" and span == 1 and main_name == "t.s":
         # the same faulty source through the command line with -D definitions and through the file API: same file, line and column
         from vf.frontends import cli_inprocess, file_api
 
